@@ -6,12 +6,23 @@ Ltac Zify.zify_post_hook ::= Z.div_mod_to_equations.
 Open Scope bool_scope. Open Scope N_scope.
 
 Lemma read_n_puts : forall (vs:list N) r, Forall (fun v => v < 2^64) vs ->
-  read_n (length vs) (concat (map put_uvarint vs) ++ r) = (vs, r).
+  read_n (length vs) (concat (map put_uvarint vs) ++ r) = Some (vs, r).
 Proof.
   induction vs as [|v vs IH]; intros r H; [reflexivity|].
   inversion H as [|? ? Hv Hvs]; subst. cbn [length map concat read_n].
   rewrite <- app_assoc. rewrite read_put_uvarint by assumption. rewrite IH by assumption. reflexivity.
 Qed.
+
+Lemma put_uvarint_nonempty v : (1 <= length (put_uvarint v))%nat.
+Proof. unfold put_uvarint. cbn [put_uvarint_f]. destruct (v <? 128); cbn [length]; lia. Qed.
+Lemma puts_len vs : (length vs <= length (concat (map put_uvarint vs)))%nat.
+Proof.
+  induction vs as [|v vs IH]; [cbn; lia|]. cbn [map concat length]. rewrite app_length.
+  pose proof (put_uvarint_nonempty v). lia.
+Qed.
+(* the count test of the decoder passes on anything that starts with a full first column *)
+Lemma count_fits vs r : N.of_nat (length (concat (map put_uvarint vs) ++ r)) <? N.of_nat (length vs) = false.
+Proof. apply N.ltb_ge. rewrite app_length. pose proof (puts_len vs). lia. Qed.
 
 Lemma w64_lt x : w64 x < 2^64. Proof. apply N.mod_lt. discriminate. Qed.
 
@@ -114,22 +125,46 @@ Lemma build_roundtrip : forall es last prev,
   build last prev (deltas last es) (map run es) (map len es) (codes prev es) = es.
 Proof. intros. apply build_general; auto using codes_codes_read. Qed.
 
+Lemma deserialize_res_columns ds rs ls cs r n :
+  n = length ds -> length rs = n -> length ls = n -> length cs = n -> N.of_nat n < 2^64 ->
+  Forall (fun v => v < 2^64) ds -> Forall (fun v => v < 2^64) rs -> Forall (fun v => v < 2^64) ls -> Forall (fun v => v < 2^64) cs ->
+  deserialize_res (put_uvarint (N.of_nat n) ++ concat (map put_uvarint ds) ++ concat (map put_uvarint rs)
+                   ++ concat (map put_uvarint ls) ++ concat (map put_uvarint cs) ++ r)
+  = Some (build 0 None ds rs ls cs).
+Proof.
+  intros -> Er El Ec Hn Hd Hr Hl Hc. unfold deserialize_res.
+  rewrite read_put_uvarint by assumption. rewrite Nat2N.id.
+  rewrite count_fits.
+  rewrite read_n_puts by assumption.
+  rewrite <- Er. rewrite read_n_puts by assumption.
+  rewrite Er, <- El. rewrite read_n_puts by assumption.
+  rewrite El, <- Ec. rewrite read_n_puts by assumption. reflexivity.
+Qed.
+
+Lemma runs_lt es : Forall entry_ok es -> Forall (fun v => v < 2^64) (map run es).
+Proof.
+  intro Hok. apply Forall_forall. intros v Hv. apply in_map_iff in Hv. destruct Hv as [e [<- He]].
+  rewrite Forall_forall in Hok. destruct (Hok e He) as (_ & _ & _ & Hrn). change (2^32) with 4294967296 in *. change (2^64) with 18446744073709551616. lia.
+Qed.
+Lemma lens_lt es : Forall entry_ok es -> Forall (fun v => v < 2^64) (map len es).
+Proof.
+  intro Hok. apply Forall_forall. intros v Hv. apply in_map_iff in Hv. destruct Hv as [e [<- He]].
+  rewrite Forall_forall in Hok. destruct (Hok e He) as (_ & _ & Hl & _). change (2^32) with 4294967296 in *. change (2^64) with 18446744073709551616. lia.
+Qed.
+
+Theorem roundtrip_res es r : Forall entry_ok es -> N.of_nat (length es) < 2^64 ->
+  deserialize_res (serialize_entries es ++ r) = Some es.
+Proof.
+  intros Hok Hn. unfold serialize_entries.
+  rewrite ids_col_puts, !col_puts, offs_col_puts. rewrite <- !app_assoc.
+  rewrite (deserialize_res_columns (deltas 0 es) (map run es) (map len es) (codes None es) r (length es));
+    auto using deltas_len, map_length, codes_len, deltas_ok, codes_lt, runs_lt, lens_lt.
+  f_equal. apply build_roundtrip; [assumption|change (2^64) with 18446744073709551616; lia].
+Qed.
+
 Theorem C03_roundtrip_raw es r : Forall entry_ok es -> N.of_nat (length es) < 2^64 ->
   deserialize_entries (serialize_entries es ++ r) = es.
-Proof.
-  intros Hok Hn. unfold deserialize_entries, serialize_entries.
-  rewrite <- !app_assoc. rewrite read_put_uvarint by assumption. rewrite Nat2N.id.
-  rewrite ids_col_puts, !col_puts, offs_col_puts.
-  rewrite <- (deltas_len es 0) at 1. rewrite read_n_puts by apply deltas_ok.
-  rewrite <- (map_length run es) at 1. rewrite read_n_puts.
-  2:{ apply Forall_forall. intros v Hv. apply in_map_iff in Hv. destruct Hv as [e [<- He]].
-      rewrite Forall_forall in Hok. destruct (Hok e He) as (_ & _ & _ & Hrn). change (2^32) with 4294967296 in *. change (2^64) with 18446744073709551616. lia. }
-  rewrite <- (map_length len es) at 1. rewrite read_n_puts.
-  2:{ apply Forall_forall. intros v Hv. apply in_map_iff in Hv. destruct Hv as [e [<- He]].
-      rewrite Forall_forall in Hok. destruct (Hok e He) as (_ & _ & Hl & _). change (2^32) with 4294967296 in *. change (2^64) with 18446744073709551616. lia. }
-  rewrite <- (codes_len es None) at 1. rewrite read_n_puts by apply codes_lt.
-  apply build_roundtrip; [assumption|]. change (2^64) with 18446744073709551616; lia.
-Qed.
+Proof. intros Hok Hn. unfold deserialize_entries. rewrite roundtrip_res by assumption. reflexivity. Qed.
 
 (* ---- the declarative wire format *)
 Definition entry_fits (e:entry) : Prop := off e + len e < 2^64.
@@ -187,22 +222,18 @@ Proof.
   unfold serialize_entries, puts. rewrite ids_col_puts, !col_puts, offs_col_puts, sdeltas_deltas by assumption. reflexivity.
 Qed.
 
-Theorem decoder_reads_spec b es r : wire_repr b es -> Forall entry_ok es -> Forall entry_fits es -> ascending_from 0 es ->
-  N.of_nat (length es) < 2^64 -> deserialize_entries (b ++ r) = es.
+Theorem decoder_reads_spec_res b es r : wire_repr b es -> Forall entry_ok es -> Forall entry_fits es -> ascending_from 0 es ->
+  N.of_nat (length es) < 2^64 -> deserialize_res (b ++ r) = Some es.
 Proof.
   intros (cs & Hc & ->) Hok Hf Ha Hn.
   destruct (codes_ok_read None es cs Hc Hok Hf I) as [Hcs Hread].
-  unfold deserialize_entries, puts. rewrite sdeltas_deltas by assumption.
-  rewrite <- !app_assoc. rewrite read_put_uvarint by assumption. rewrite Nat2N.id.
-  rewrite <- (deltas_len es 0) at 1. rewrite read_n_puts by apply deltas_ok.
-  rewrite <- (map_length run es) at 1. rewrite read_n_puts.
-  2:{ apply Forall_forall. intros v Hv. apply in_map_iff in Hv. destruct Hv as [e [<- He]].
-      rewrite Forall_forall in Hok. destruct (Hok e He) as (_ & _ & _ & Hrn). change (2^32) with 4294967296 in *. change (2^64) with 18446744073709551616. lia. }
-  rewrite <- (map_length len es) at 1. rewrite read_n_puts.
-  2:{ apply Forall_forall. intros v Hv. apply in_map_iff in Hv. destruct Hv as [e [<- He]].
-      rewrite Forall_forall in Hok. destruct (Hok e He) as (_ & _ & Hl & _). change (2^32) with 4294967296 in *. change (2^64) with 18446744073709551616. lia. }
   assert (Hlen: length cs = length es).
   { clear -Hc. induction Hc; cbn; auto. }
-  rewrite <- Hlen at 1. rewrite read_n_puts by assumption.
-  apply build_general; [assumption|change (2^64) with 18446744073709551616; lia|assumption].
+  unfold puts. rewrite sdeltas_deltas by assumption. rewrite <- !app_assoc.
+  rewrite (deserialize_res_columns (deltas 0 es) (map run es) (map len es) cs r (length es));
+    auto using deltas_len, map_length, deltas_ok, runs_lt, lens_lt.
+  f_equal. apply build_general; [assumption|change (2^64) with 18446744073709551616; lia|assumption].
 Qed.
+Theorem decoder_reads_spec b es r : wire_repr b es -> Forall entry_ok es -> Forall entry_fits es -> ascending_from 0 es ->
+  N.of_nat (length es) < 2^64 -> deserialize_entries (b ++ r) = es.
+Proof. intros. unfold deserialize_entries. erewrite decoder_reads_spec_res; eauto. Qed.
